@@ -390,6 +390,20 @@ def proof_stage(run, pid, extra_files=()):
         run.add_violation('assumption-audit', 'Props/%s.v does not check cleanly: %s' % (pid, a['log'][-600:]),
                           a['log'].split('\n'), no_input=True)
         return False
+    if run.tier == 'thorough':
+        # independent re-check of the compiled property file and everything it depends on
+        run.obligations += 1
+        rc, out, dt = sh(['timeout', '3000', 'coqchk', '-silent', '-o', '-Q', '.', 'LogV', 'LogV.Props.' + pid], cwd=COQ, timeout=3100)
+        summary = out[out.find('CONTEXT SUMMARY'):] if 'CONTEXT SUMMARY' in out else out[-1500:]
+        clean = rc == 0 and all(re.search(r'\* %s: <none>' % re.escape(k), summary) for k in (
+            'Axioms', 'Constants/Inductives relying on type-in-type', 'Constants/Inductives relying on unsafe (co)fixpoints', 'Inductives whose positivity is assumed'))
+        run.coverage['coqchk'] = {'seconds': round(dt, 1), 'summary': ' '.join(summary.split())[:600]}
+        run.checker_cmd += '; coqchk -silent -o -Q . LogV LogV.Props.%s' % pid
+        if clean:
+            run.discharged += 1
+        else:
+            run.add_violation('coqchk', 'coqchk does not accept LogV.Props.%s with an empty axiom list: %s' % (pid, summary[-600:]), out[-3000:].split('\n'), no_input=True)
+            return False
     return True
 
 
